@@ -28,6 +28,7 @@ var props = map[string]propFunc{
 	"C11": runC11,
 	"C12": runC12,
 	"C13": runC13,
+	"C14": runC14,
 	"C16": runC16,
 	"C17": runC17,
 }
